@@ -65,6 +65,7 @@ type propRun struct {
 	byBackend  map[string]int
 	solverMs   int64
 	vacuity    int
+	bfail      []failure
 }
 
 type failure struct {
@@ -108,6 +109,11 @@ func runCheck(prop, tier string) int {
 	}
 	sort.Strings(keys)
 	for _, k := range keys {
+		if e.byKey[k] == nil && (e.isIfaceMethodKey(k) || e.isFuncFieldKey(k) || strings.HasPrefix(k, "struct_")) {
+			// contract of an interface method / function-valued field: used at call sites, nothing to verify here
+			pr.assumed["interface/field contract used at call sites: "+k] = true
+			continue
+		}
 		if e.byKey[k] == nil {
 			// function under contract disappeared: undecided, not a violation
 			pr.undecided = append(pr.undecided, k+": function not found in the current tree (renamed/removed)")
@@ -228,8 +234,15 @@ func runCheck(prop, tier string) int {
 			pr.add(rec, &SolveResult{Status: st, Solver: "effects", Output: detail, Model: detail}, nil)
 		}
 	}
-	// ---- bounded stand-ins (never counted as proved)
-	pr.bounded = runBounded(e, prop, tier, seed)
+	// ---- bounded stand-ins (never counted as proved): always in the thorough tier; in the quick tier only
+	// when a function under contract could not be brought within reach (UNDECIDED): the scenario then
+	// stands in for the missing proof and can turn the run into a violation with a failing input.
+	var bfailed []map[string]interface{}
+	pr.bounded, bfailed = runBounded(e, prop, tier, seed, len(pr.undecided) > 0)
+	for _, bf := range bfailed {
+		rec := oblRecord{Name: "B/" + fmt.Sprint(bf["contract"]), Kind: "bounded", Tag: "B", Text: "bounded stand-in scenario on the real code", Status: "refuted", Backend: "go test -overlay"}
+		pr.bfail = append(pr.bfail, failure{rec: rec, detail: fmt.Sprint(bf["output"]), model: fmt.Sprint(bf["source"]) + "\x00" + fmt.Sprint(bf["pkg"])})
+	}
 
 	return pr.finish(e, seed, t0)
 }
@@ -288,6 +301,21 @@ func (pr *propRun) finish(e *Engine, seed int, t0 time.Time) int {
 		}
 		fmt.Printf("  failed obligation %s (%s, %s): %s\n", f.rec.Name, f.rec.Kind, f.rec.Status, f.rec.Text)
 		fmt.Printf("VIOLATION property=%s replay=%s%s\n", pr.prop, path, suffix)
+	}
+	for _, f := range pr.bfail {
+		violations++
+		exit = 1
+		path := filepath.Join("/verif/replays", pr.prop, sanitize(f.rec.Name)+".json")
+		parts := strings.SplitN(f.model, "\x00", 2)
+		rp := &Replay{Property: pr.prop, Obligation: f.rec.Name, Kind: "bounded", Text: f.rec.Text, Status: "refuted", Backend: f.rec.Backend,
+			SolverOutput: "", FailingInputFound: true, ReplayTest: parts[0], ReplayOutput: firstLines(f.detail, 80)}
+		if len(parts) > 1 {
+			rp.ReplayKind = parts[1]
+		}
+		data, _ := json.MarshalIndent(rp, "", " ")
+		os.WriteFile(path, data, 0o644)
+		fmt.Printf("  bounded stand-in failed on the real code: %s\n", f.rec.Name)
+		fmt.Printf("VIOLATION property=%s replay=%s\n", pr.prop, path)
 	}
 	obligations := len(pr.records)
 	discharged := 0
